@@ -640,6 +640,46 @@ func (s *Sys) exec1(toks []string) string {
 			return rBytes(v)
 		case "vexists":
 			return rBool(t.VersionExists(atoi(toks[1])))
+		case "costsweep":
+			// read costs over the whole key range of the latest committed version, nothing cached:
+			// existing keys and the gaps after them (lookup, existence, rank: 2h+2; proofs: 10h+10)
+			if s.hooks == nil {
+				return "cs(nowrap)"
+			}
+			lv, err := t.GetLatestVersion()
+			if err != nil || lv == 0 {
+				return "cs(ok)"
+			}
+			im, err := t.GetImmutable(lv)
+			if err != nil {
+				return "err"
+			}
+			var keys [][]byte
+			im.IterateRange(nil, nil, true, func(k, _ []byte) bool { keys = append(keys, append([]byte{}, k...)); return false })
+			h := int(im.Height())
+			worst := ""
+			check := func(what string, bound int, f func()) {
+				s.hooks.gets = 0
+				f()
+				if s.hooks.gets > bound && worst == "" {
+					worst = fmt.Sprintf("%s:reads=%d,h=%d,bound=%d", what, s.hooks.gets, h, bound)
+				}
+			}
+			stride := len(keys)/150 + 1
+			for i := 0; i < len(keys); i += stride {
+				k := keys[i]
+				gap := append(append([]byte{}, k...), '0')
+				check("get", 2*h+2, func() { _, _ = im.Get(k) })
+				check("has-gap", 2*h+2, func() { _, _ = im.Has(gap) })
+				check("gwi-gap", 2*h+2, func() { _, _, _ = im.GetWithIndex(gap) })
+				check("gbi", 2*h+2, func() { _, _, _ = im.GetByIndex(int64(i)) })
+				check("proof", 10*h+10, func() { _, _ = im.GetProof(k) })
+				check("proof-gap", 10*h+10, func() { _, _ = im.GetProof(gap) })
+			}
+			if worst != "" {
+				return "cs(viol," + worst + ")"
+			}
+			return "cs(ok)"
 		case "isempty":
 			return rBool(t.IsEmpty())
 		case "fastflags":
